@@ -156,11 +156,10 @@ def gen_case(rng, max_units=None):
             break
         ag, at = rng.choice(others)
         f = mk_fusion(rng, world, gene, tx, ag, at)
-        # two fusion records with the same donor breakpoint are ONE record for the tool (VariantRecord.__eq__ /
-        # __hash__ ignore the accepter; set(records) in VariantRecordPoolOnDisk.__getitem__ keeps one of them),
-        # so they would not be two processing units: donor breakpoints are kept distinct
-        if f and f['pos'] not in seen:
-            seen.add(f['pos']); fus.append(f); budget -= 1
+        # (before /repo 8f9517a two fusion records with the same donor breakpoint were ONE record for the tool; they
+        # are distinct records now and may be generated; evaluate() still derives the unit list from what the tool runs)
+        if f and f['id'] not in seen:
+            seen.add(f['id']); fus.append(f); budget -= 1
             units.append(dict(tx=tx['id'], kind='fusion', id=f['id'], acc=f['acc_tx'], uid='%s:fusion:%s' % (tx['id'], f['id'])))
     nex = len(tx['exons'])
     spans = [(i, j) for i in range(nex) for j in range(i, nex)]
